@@ -14,6 +14,8 @@ import Voi.Drv.Sr25519
 import Voi.Drv.Field
 import Voi.Drv.Panic
 import Voi.Drv.Consts
+import Voi.Drv.Ed25519Model
+import Voi.Drv.ScalarMulModel
 namespace Voi.Drv
 
 structure DrvState where
@@ -39,6 +41,8 @@ def dispatch (st : DrvState) (ws : List String) : DrvState × String :=
   | "E1" :: op :: a => (st, handleE1 op a)
   | "L1" :: op :: a => (st, handleL1 op a)
   | "Q1" :: op :: a => let (s, r) := handleQ1 st.sr op a; ({ st with sr := s }, r)
+  | "V2" :: op :: a => (st, handleV2 op a)
+  | "G2" :: op :: a => (st, handleG2 op a)
   | "K0" :: op :: a => (st, handleK0 op a)
   | "P1" :: op :: a => (st, handleP1 op a)
   | "F2" :: op :: a => (st, handleF2 op a)
